@@ -108,6 +108,7 @@ type StepVars struct {
 	NWrites   *smt.Term // number of write calls in the step
 	ErrOther  *smt.Term // Bool: Error token with a non-EOF error
 	Survive   *smt.Term // Bool: stubbed sanitizeAttrs kept an attribute
+	RawIsText *smt.Term // Bool: the raw write equals the escaped serialisation of the text token
 	Pre, Post map[string]sym.Value
 	Formula   *smt.Term
 	NGroups   int
@@ -158,6 +159,7 @@ func (t *TRel) Instance(j int, pre map[string]sym.Value) *StepVars {
 		cond                                          *smt.Term
 		kind, nattr, outn, nwrites                    int64
 		errOther                                      bool
+		rawIsText                                     *smt.Term
 		written, space, raw, failed, returned, reterr bool
 		post                                          map[string]sym.Value
 		dataEq                                        *smt.Term
@@ -221,11 +223,22 @@ func (t *TRel) Instance(j int, pre map[string]sym.Value) *StepVars {
 			}
 		}
 		a.nwrites = int64(len(p.Writes))
+		// the bytes accepted by the destination in this step: the concatenation
+		// of the successful writes
+		var okWrites []*smt.Term
 		for _, w := range p.Writes {
-			ws := smt.Subst(w.S, sub)
-			switch {
-			case w.Failed:
+			if w.Failed {
 				a.failed = true
+				continue
+			}
+			okWrites = append(okWrites, smt.Subst(w.S, sub))
+		}
+		if len(okWrites) > 0 {
+			ws := smt.Concat(okWrites...)
+			if len(okWrites) == 1 {
+				ws = okWrites[0]
+			}
+			switch {
 			case ws.Op == "uf" && strings.HasPrefix(ws.Name, "tokstr.") && (ws.Args[0] == sv.Data || ws.Args[0] == p.Tok.Data) && strings.HasPrefix(ws.Name, "tokstr."+p.Tok.Kind+"."):
 				a.written = true
 				a.outn = int64((len(ws.Args) - 1) / 2)
@@ -233,6 +246,9 @@ func (t *TRel) Instance(j int, pre map[string]sym.Value) *StepVars {
 				a.space = true
 			default:
 				a.raw = true
+				if p.Tok != nil && p.Tok.Kind == "Text" && p.Tok.Data != nil {
+					a.rawIsText = smt.Eq(ws, smt.UF("tokstr.Text.0", smt.String, smt.Subst(p.Tok.Data, sub)))
+				}
 			}
 		}
 		a.returned, a.reterr = p.Returned, p.RetErr
@@ -265,6 +281,9 @@ func (t *TRel) Instance(j int, pre map[string]sym.Value) *StepVars {
 			fmt.Fprintf(&sb, "%d|%d|%d|%d|%v|%v|%v|%v|%v|%v|%v|", a.kind, a.nattr, a.outn, a.nwrites, a.errOther, a.written, a.space, a.raw, a.failed, a.returned, a.reterr)
 			if a.dataEq != nil {
 				fmt.Fprintf(&sb, "E%d|", a.dataEq.ID())
+			}
+			if a.rawIsText != nil {
+				fmt.Fprintf(&sb, "T%d|", a.rawIsText.ID())
 			}
 			if a.post != nil {
 				for _, nme := range t.Names {
@@ -319,6 +338,15 @@ func (t *TRel) Instance(j int, pre map[string]sym.Value) *StepVars {
 	sv.NWrites = iteI(func(a alt) int64 { return a.nwrites })
 	sv.ErrOther = iteB(func(a alt) bool { return a.errOther })
 	sv.Survive = smt.Var(pf+"attrsSurvive", smt.Bool)
+	{
+		var ds []*smt.Term
+		for i, a := range alts {
+			if a.rawIsText != nil {
+				ds = append(ds, smt.And(smt.Eq(sv.Sel, smt.IntC(int64(i))), a.rawIsText))
+			}
+		}
+		sv.RawIsText = smt.Or(ds...)
+	}
 	sv.Written = iteB(func(a alt) bool { return a.written })
 	sv.Space = iteB(func(a alt) bool { return a.space })
 	sv.RawWrite = iteB(func(a alt) bool { return a.raw })
